@@ -177,7 +177,8 @@ impl Prop for C14Prop {
                 // ignores it; every token must still belong to a logical line)
                 let mut c = crate::props::wf::wf_generate("prog", t, false)?;
                 if !c.input.trim_end().to_ascii_lowercase().ends_with("end.") {
-                    return None;
+                    // a fragment: close it like a program body (any input is in scope here)
+                    c.input.push_str("\nend.");
                 }
                 let tail = *t.pick(&[
                     "\nFoo;\nBar := 1;\n",
